@@ -209,3 +209,24 @@ def private_helpers_of(ctx, roots):
                 allowed.add(p)
                 changed = True
     return allowed
+
+
+def no_panic_gaps(R, rule, ev, entry, label=None):
+    """every panic obligation met while analysing `entry` is entailed by the guards dominating it: the guarded outcomes then cover every
+    input (an input that would panic has no outcome and would otherwise escape a table comparison)"""
+    bad = 0
+    seen = set()
+    for ob in ev.all_obls:
+        if ob['kind'] == 'char_boundary':
+            continue
+        if ob['cond'] == T.TRUE or solver.entails(ob['pc'], ob['cond']):
+            continue
+        k = (ob['fn'], ob['kind'], T.short(ob['cond'])[:120])
+        if k in seen:
+            continue
+        seen.add(k)
+        bad += 1
+        R.inst(rule, 'no-panic-gap/%s/%s' % (ob['fn'], ob['kind']), False, expected='%s entailed by its guards' % T.short(ob['cond'])[:200],
+               found='not entailed under: ' + pc_text(ob['pc'], 8), entry=label or entry, site=ob['site'], kind='panic-reachable')
+    R.inst(rule, 'no-panic-gap/' + (label or entry), bad == 0, expected='all %d obligations discharged' % len(ev.all_obls), found='%d undischarged' % bad, entry=label or entry, nontrivial=len(ev.all_obls) > 0)
+    return bad == 0
